@@ -295,9 +295,8 @@ func finish(c *Ctx, pd *propDef) int {
 		}
 		generated++
 		be, inBase := c.Baseline[it.Name]
-		if it.Status == "discharged" || (inBase && be.Status == "discharged") {
-			total++ // claimed: discharged now or on the pinned tree
-		}
+		_ = be
+		_ = inBase
 		if it.Status == "discharged" {
 			discharged++
 			continue
@@ -391,6 +390,14 @@ func finish(c *Ctx, pd *propDef) int {
 			fmt.Printf("VIOLATION property=%s replay=%s no-failing-input-found\n", c.Prop, path)
 		}
 		code = 1
+	}
+	// obligations claimed by this run = discharged now + proofs that were lost (reported as violations);
+	// flaky / undecided / known findings are reported separately and never counted as proved
+	total = discharged
+	for _, v := range viols {
+		if regressed[v.it.Name] != "" {
+			total++
+		}
 	}
 	// evidence
 	backends := map[string]int{}
